@@ -55,8 +55,20 @@ func c18PoolInterp(t *testing.T, c c18Case) kit.Verdict {
 		mu.Unlock()
 	}
 	log, res := c18PlayRounds(t, c, true, func(clk *c18Clock, log *c18Log) (func(g, i int, op c18Op), func()) {
-		var nres atomic.Int64
+		var nres, ncreate, ndestroy atomic.Int64
+		plan := func(n int64) c18Op {
+			if len(c.F) == 0 {
+				return c18Op{}
+			}
+			return c.F[int(n-1)%len(c.F)]
+		}
 		create := func() interface{} {
+			if plan(ncreate.Add(1)).A == 2 {
+				mu.Lock()
+				pevs = append(pevs, c18PoolEvt{Kind: "create-panic", At: clk.now()})
+				mu.Unlock()
+				panic(c18Panic{"pool create"})
+			}
 			r := &c18Res{id: int(nres.Add(1))}
 			mu.Lock()
 			pevs = append(pevs, c18PoolEvt{Kind: "create", ID: r.id, At: clk.now()})
@@ -79,6 +91,9 @@ func c18PoolInterp(t *testing.T, c c18Case) kit.Verdict {
 			mu.Lock()
 			pevs = append(pevs, c18PoolEvt{Kind: "destroy", ID: r.id, At: at, Idle: at.T - r.lastPut})
 			mu.Unlock()
+			if plan(ndestroy.Add(1)).Key == 1 {
+				panic(c18Panic{"pool destroy"})
+			}
 		}
 		var opts []syncx.PoolOption
 		if c.P > 0 {
@@ -91,9 +106,19 @@ func c18PoolInterp(t *testing.T, c c18Case) kit.Verdict {
 				return
 			}
 			ev := c18Ev{G: g, I: i, Op: op, Sub: "get"}
+			var x interface{}
 			ev.Inv = clk.now()
-			x := pool.Get()
+			pan, foreign := c18Try(func() { x = pool.Get() })
 			ev.Ret = clk.now()
+			if pan {
+				// create or destroy panicked inside Get: the caller holds nothing
+				ev.Pan = true
+				if foreign != nil {
+					ev.Foreign = fmt.Sprint(foreign)
+				}
+				log.ev(ev)
+				return
+			}
 			r, ok := x.(*c18Res)
 			if !ok || r == nil {
 				ev.Val = -1
@@ -112,19 +137,43 @@ func c18PoolInterp(t *testing.T, c c18Case) kit.Verdict {
 				ev.Res = int((ev.Ret.T - r.lastPut) / c18ms) // idle time in ms at hand-out
 			}
 			log.ev(ev)
-			c18Sleep(op.H)
-			r.everPut = true
-			r.lastPut = time.Since(clk.t0)
-			r.held.Add(-1)
-			pe := c18Ev{G: g, I: i, Op: op, Sub: "put", Val: r.id}
-			pe.Inv = clk.now()
-			pool.Put(r)
-			pe.Ret = clk.now()
-			log.ev(pe)
+			// the holder: Put is deferred, so a holder that panics (A=2) still
+			// gives the resource back
+			c18Try(func() {
+				defer func() {
+					r.everPut = true
+					r.lastPut = time.Since(clk.t0)
+					r.held.Add(-1)
+					pe := c18Ev{G: g, I: i, Op: op, Sub: "put", Val: r.id}
+					pe.Inv = clk.now()
+					pool.Put(r)
+					pe.Ret = clk.now()
+					log.ev(pe)
+				}()
+				c18Sleep(op.H)
+				if op.A == 2 {
+					panic(c18Panic{"pool holder"})
+				}
+			})
 		}, nil
 	})
 	for _, b := range bad {
 		v.failf("%s", b)
+	}
+	createPanics := 0
+	for _, pe := range pevs {
+		if pe.Kind == "create-panic" {
+			createPanics++
+			v.class("create-panicked")
+		}
+	}
+	if res.Hang && createPanics > 0 {
+		// Pool.Get counts the resource (created++) before it calls create and
+		// does not take the count back when create panics, so the slot is lost
+		// and later Gets can block for ever. The statement bounds the pool from
+		// above only (never MORE than the limit); a lost slot is unspecified.
+		v.class("hang-after-create-panic(slot lost; unspecified, tolerated)")
+		res = kit.BubbleResult{}
 	}
 	// live resources = creates - destroys, in the pool's own order
 	live, created := 0, 0
@@ -168,6 +217,17 @@ func c18PoolInterp(t *testing.T, c c18Case) kit.Verdict {
 			continue
 		}
 		name := fmt.Sprintf("pool(limit %d, maxAge %v) Get g%d#%d", c.N, maxAge, ev.G, ev.I)
+		if ev.Foreign != "" {
+			v.failf("%s panicked with a value no callback raised: %s", name, ev.Foreign)
+			continue
+		}
+		if ev.Pan {
+			v.class("get-panicked-in-callback")
+			continue
+		}
+		if ev.Op.A == 2 {
+			v.class("holder-panicked-before-deferred-put")
+		}
 		if ev.Val == -1 {
 			v.failf("%s returned a foreign or nil value", name)
 			continue
@@ -216,8 +276,26 @@ func c18PoolGen(rt *rapid.T) c18Case {
 		if rapid.IntRange(0, 11).Draw(rt, "putnil") == 0 {
 			return c18Op{K: "putnil"}
 		}
-		return c18Op{K: "get", H: c18Hold(rt)}
+		op := c18Op{K: "get", H: c18Hold(rt)}
+		if rapid.IntRange(0, 7).Draw(rt, "holderPanics") == 0 {
+			op.A = 2
+		}
+		return op
 	})
+	// plan for the n-th create (A=2: panics) and the n-th destroy (Key=1: panics)
+	if rapid.IntRange(0, 2).Draw(rt, "callbackPanics") == 0 {
+		nf := rapid.IntRange(1, 5).Draw(rt, "nf")
+		for i := 0; i < nf; i++ {
+			f := c18Op{}
+			if rapid.IntRange(0, 2).Draw(rt, "createPanics") == 0 {
+				f.A = 2
+			}
+			if rapid.IntRange(0, 2).Draw(rt, "destroyPanics") == 0 {
+				f.Key = 1
+			}
+			c.F = append(c.F, f)
+		}
+	}
 	return c
 }
 
